@@ -198,8 +198,66 @@ def value_of(c):
     raise InfraError("bad case kind %r" % (c,))
 
 
-NUM_TYPES = ["int", "float", "bool", "Decimal", "Fraction", "np.int64", "np.float64", "np.int32", "np.uint64", "np.float32",
+NUM_TYPES = ["int", "float", "bool", "Decimal", "Fraction", "np.int64", "np.float64", "np.int32", "np.int16", "np.uint64", "np.float32",
              "np.bool", "intsub", "floatsub", "str", "bytes", "np.str", "complex"]
+# label -> the class as the source would write it
+SRC_NAME = {"int": "int", "float": "float", "bool": "bool", "Decimal": "decimal.Decimal", "Fraction": "fractions.Fraction",
+            "np.int64": "numpy.int64", "np.float64": "numpy.float64", "np.int32": "numpy.int32", "np.int16": "numpy.int16",
+            "np.uint64": "numpy.uint64", "np.float32": "numpy.float32", "np.bool": "numpy.bool_", "str": "str", "bytes": "bytes",
+            "np.str": "numpy.str_", "complex": "complex"}
+# the numeric classes the statement's "integer and float inputs" are demanded of: the class table of the unchanged source
+# (`input_type in (int, numpy.int64, float, numpy.float64)`); theorem C08.epoch_classes_are_the_stated_ones
+ADMITTED_INT = ("int", "np.int64")
+ADMITTED_FLOAT = ("float", "np.float64")
+# numeric neighbours: not in the table of the unchanged source (None there); a reader may take them for numbers, so the oracle accepts
+# None or the epoch value, and the model (table read from the source on this run) says which
+NEIGHBOURS = ("bool", "Decimal", "Fraction", "np.int32", "np.int16", "np.uint64", "np.float32", "np.bool", "intsub", "floatsub")
+
+
+class IntSub(int):
+    pass
+
+
+class FloatSub(float):
+    pass
+
+
+_TABLE = None
+
+
+def source_table():
+    """[mode, class names] of the table in front of the Unix-seconds branch as the extractor read it from the working tree on this run."""
+    global _TABLE
+    if _TABLE is None:
+        import json
+        import os
+
+        from .. import core
+        try:
+            with open(os.path.join(core.LEAN, "OrsoVerif", "Generated", "generated.json")) as f:
+                _TABLE = json.load(f).get("iso.epoch_types") or ["exact", []]
+        except (OSError, ValueError):
+            _TABLE = ["exact", []]
+    return _TABLE
+
+
+def num_types():
+    """NUM_TYPES plus one label `src:<name>` for every class the source's table names on this run that has no label yet."""
+    known = set(SRC_NAME.values()) | {"numpy.bool"}
+    return NUM_TYPES + ["src:" + nm for nm in source_table()[1] if nm not in known and _resolve(nm) is not None]
+
+
+def _resolve(name):
+    import decimal
+    import fractions
+
+    import numpy
+    try:
+        cls = eval(name, {"__builtins__": {}}, {"numpy": numpy, "np": numpy, "datetime": datetime, "decimal": decimal, "fractions": fractions,
+                                                "int": int, "float": float, "bool": bool, "complex": complex, "str": str, "bytes": bytes})
+    except Exception:  # noqa: BLE001 - a name the harness cannot build: not fed
+        return None
+    return cls if isinstance(cls, type) and cls not in (str, bytes, datetime.datetime, datetime.date, datetime.time) else None
 
 
 def num_value(ty, n):
@@ -209,19 +267,54 @@ def num_value(ty, n):
 
     import numpy
 
-    class I(int):
-        pass
-
-    class F(float):
-        pass
-
+    if ty.startswith("src:"):
+        return _resolve(ty[4:])(n)
     return {
         "int": lambda: int(n), "float": lambda: float(n), "bool": lambda: bool(n), "Decimal": lambda: decimal.Decimal(n),
         "Fraction": lambda: fractions.Fraction(n), "np.int64": lambda: numpy.int64(n), "np.float64": lambda: numpy.float64(n),
-        "np.int32": lambda: numpy.int32(n), "np.uint64": lambda: numpy.uint64(n), "np.float32": lambda: numpy.float32(n),
-        "np.bool": lambda: numpy.bool_(n), "intsub": lambda: I(n), "floatsub": lambda: F(n), "str": lambda: str(n),
+        "np.int32": lambda: numpy.int32(n), "np.int16": lambda: numpy.int16(n), "np.uint64": lambda: numpy.uint64(n),
+        "np.float32": lambda: numpy.float32(n),
+        "np.bool": lambda: numpy.bool_(n), "intsub": lambda: IntSub(n), "floatsub": lambda: FloatSub(n), "str": lambda: str(n),
         "bytes": lambda: str(n).encode(), "np.str": lambda: numpy.str_(str(n)), "complex": lambda: complex(n),
     }[ty]()
+
+
+def holds(ty, n):
+    """The class can hold n exactly (`int(value) == n`), so the value is ==-equal to n."""
+    try:
+        v = num_value(ty, n)
+        if ty in ("str", "bytes", "np.str"):
+            return n >= 0
+        if ty == "complex":
+            return v == n
+        return int(v) == n and (ty not in ("bool", "np.bool") or n in (0, 1))
+    except Exception:  # noqa: BLE001 - OverflowError of numpy scalars etc.
+        return False
+
+
+def num_class_name(v):
+    """Name (as `Iso.mro` knows it) of the class of a number that is none of int / numpy.int64 / float / numpy.float64, else None."""
+    import decimal
+    import fractions
+
+    import numpy
+
+    t = type(v)
+    if t is bool:
+        return "bool"
+    if isinstance(v, int):
+        return "int subclass"
+    if isinstance(v, float):
+        return "float subclass"
+    if t is numpy.bool_:
+        return "numpy.bool"
+    if isinstance(v, (numpy.integer, numpy.floating)):
+        return "numpy." + t.__name__
+    if t is decimal.Decimal:
+        return "decimal.Decimal"
+    if t is fractions.Fraction:
+        return "fractions.Fraction"
+    return None
 
 
 def model_input(v):
@@ -237,6 +330,14 @@ def model_input(v):
         return ["float", v]
     if t is numpy.float64:
         return ["npfloat", float(v)]
+    nm = num_class_name(v)
+    if nm is not None:
+        if hasattr(v, "to_pydatetime"):
+            return None
+        try:
+            return ["num", nm, int(v)]  # `int(value)` is what the epoch branch would compute
+        except (ValueError, OverflowError, TypeError):
+            return ["other"]  # NaN / infinity: whatever the table says, `int(value)` raises a caught class -> None
     if isinstance(v, bytes):
         try:
             s = bytes(v).decode("utf-8")
@@ -321,14 +422,17 @@ def expected(c, v):
         return ("any",)
     if k == "num":
         n, ty = c["n"], c["ty"]
-        if ty in ("int", "str", "bytes"):
-            if n < 0 and ty != "int":
-                return ("none",)
-            return ("value", fields(DT(1970, 1, 1) + datetime.timedelta(seconds=n))) if MIN_EPOCH <= n <= MAX_EPOCH else ("none",)
-        if ty == "np.int64":
-            return ("either", fields(DT(1970, 1, 1) + datetime.timedelta(seconds=n))) if MIN_EPOCH <= n <= MAX_EPOCH else ("none",)
-        if ty in ("float", "np.float64") and MIN_EPOCH <= n <= MAX_EPOCH:
-            return ("floatsec", float(n), ty == "np.float64")
+        inside = MIN_EPOCH <= n <= MAX_EPOCH
+        f = fields(DT(1970, 1, 1) + datetime.timedelta(seconds=n)) if inside else None
+        if ty in ("str", "bytes"):
+            return ("none",) if n < 0 or not inside else ("value", f)
+        if ty in ADMITTED_INT:
+            # "integer inputs are read as Unix seconds in UTC": demanded of the integer classes of the unchanged source's table
+            return ("epoch", f) if inside else ("none",)
+        if ty in ADMITTED_FLOAT:
+            return ("floatsec", float(n), False) if inside else ("any",)
+        if ty in NEIGHBOURS or ty.startswith("src:"):
+            return ("either", f) if inside else ("none",)
         return ("any",)
     if k == "date":
         return ("value", list(c["ymd"]) + [0, 0, 0, 0])
@@ -337,8 +441,7 @@ def expected(c, v):
     if k in ("int", "npint"):
         n = c["n"]
         if MIN_EPOCH <= n <= MAX_EPOCH:
-            e = ("value", fields(DT(1970, 1, 1) + datetime.timedelta(seconds=n)))
-            return e if k == "int" else ("either", e[1])
+            return ("epoch", fields(DT(1970, 1, 1) + datetime.timedelta(seconds=n)))
         return ("none",)
     if k in ("float", "npfloat"):
         x = c["x"]
@@ -346,7 +449,7 @@ def expected(c, v):
             return ("none",)
         if x < MIN_EPOCH or x > MAX_EPOCH:
             return ("any",)  # within one second of the limits: depends on the rounding direction
-        return ("floatsec", x, k == "npfloat")
+        return ("floatsec", x, False)
     if k in ("text", "bytes"):
         if k == "bytes":
             try:
@@ -389,6 +492,8 @@ def check(exp, out):
         return "parser raised %s" % out[1]
     if out[0] == "weird":
         return "parser returned neither None nor a datetime"
+    if exp[0] == "epoch" and out != ["value", exp[1]]:
+        return "integer input (int, numpy.int64: the integer classes the parser's table admits) not read as Unix seconds in UTC"
     if exp[0] == "value" and out != ["value", exp[1]]:
         return "round trip: the parsed value is not the rendered date-time (whole seconds)"
     if exp[0] == "none" and out != ["none"]:
@@ -496,6 +601,8 @@ def evaluate(ctx, cases):
             raise InfraError("model rejected %s of case %r: %r" % (what, cases[i], o))
         dec = wire.dec_all(o[3:])
         mres[i][what] = dec if what == "tailread" else dec[0]
+        if what == "parse":
+            mres[i]["parsegen"] = dec[1]  # the dispatch program translated from the source on this run (Gen.IsoDispatch.dispatch)
         if what in ("DATE", "TIMESTAMP", "TIME"):
             # [what the cast program translated from the source on this run returns, what the specification form Iso.cast says]
             mres[i][what + ":spec"] = dec[1]
@@ -564,8 +671,11 @@ def evaluate(ctx, cases):
         if "parse" in m:
             mp = m["parse"]
             ip = out["parse"]
+            if m["parsegen"] != ip:
+                ctx.disagree(c, ip, m["parsegen"], "parse_iso vs the dispatch program translated from the source on this run (Gen.IsoDispatch.dispatch + Gen.IsoText.textBranch)")
+                continue
             if mp != ip:
-                ctx.disagree(c, ip, mp, "parse_iso vs Iso.parseIso (string branch regenerated from the source)")
+                ctx.disagree(c, ip, mp, "parse_iso vs Iso.parseIso (the specification form Iso.body; string branch regenerated from the source)")
                 continue
             if "skel" in m and m["skel"] != ip:
                 ctx.disagree(c, ip, m["skel"], "parse_iso vs the hand-written skeleton Iso.textPath (the code has moved away from the proven skeleton)")
@@ -866,10 +976,25 @@ def num_cases(ctx, n):
     rng = ctx.rng
     vals = [0, 1, 2, 59, 86399, 86400, 2**24 - 1] + [rng.randint(0, 2**24 - 1) for _ in range(n)]
     for v in vals:
-        tys = [t for t in NUM_TYPES if not (t in ("bool", "np.bool") and v > 1)]
+        tys = [t for t in num_types() if holds(t, v)]
         rng.shuffle(tys)
         for t in tys:
             yield {"kind": "num", "ty": t, "n": v, "casts": t in ("int", "bool", "Decimal", "str")}
+
+
+NUMCLASS_VALUES = [0, 1, -1, 59, 86399, 86400, 32767, 1718530754, 2**31 - 1, 2**31, MIN_EPOCH, MIN_EPOCH - 1, MAX_EPOCH, MAX_EPOCH + 1,
+                   -(2**63), 2**63 - 1, 2**63]
+
+
+def numclass_cases(ctx):
+    """Deterministic: every numeric class the source's table names on this run, every class of the unchanged source's table and
+    their neighbours (other numpy widths, bool, numpy.bool_, Decimal, Fraction, subclasses of int / float, digits as text) x the
+    second counts at and one past both ends of the range, 0 / 1 / -1, 32-bit limits — each through the parser and all three casts."""
+    for ty in num_types():
+        ctx.hit("numclass:" + ("table-of-this-run:" if SRC_NAME.get(ty, ty[4:]) in source_table()[1] else "") + ty)
+        for v in NUMCLASS_VALUES:
+            if holds(ty, v):
+                yield {"kind": "num", "ty": ty, "n": v, "casts": True}
 
 
 def seq_cases(ctx, n):
@@ -879,7 +1004,7 @@ def seq_cases(ctx, n):
     yield {"kind": "seq", "n": [1, 0], "order": ["int", "bool", "float", "np.bool", "Decimal", "np.int64", "str"]}
     yield {"kind": "seq", "n": [0, 1], "order": ["bool", "Fraction", "int", "np.float64", "bytes"]}
     for _ in range(n):
-        order = [t for t in NUM_TYPES if t not in ("bool", "np.bool")]
+        order = [t for t in num_types() if t not in ("bool", "np.bool", "np.int16")]
         rng.shuffle(order)
         a, b = rng.sample(range(2, 2**24), 2)
         yield {"kind": "seq", "n": [a, b], "order": order[: rng.randint(3, len(order))]}
@@ -1075,6 +1200,8 @@ def run(ctx):
     batches(ctx, boundary_cases(ctx))
     batches(ctx, edge_cases(ctx))
     batches(ctx, timeofday_cases(ctx, ctx.scale(4000, 40000)))
+    ctx.note("epoch_class_table_of_this_run", source_table())
+    batches(ctx, numclass_cases(ctx))
     batches(ctx, num_cases(ctx, ctx.scale(40, 400)))
     for c in seq_cases(ctx, ctx.scale(60, 600)):
         evaluate_seq(ctx, c)
